@@ -21,8 +21,9 @@ PKG_CS = "./pkg/crypto/ciphersuite"
 # Only datagrams of the DROP classes (cannot be parsed as DTLS records / protected but not authentic) are
 # required to be without effect.  Everything else is only required not to panic / wedge / bloat:
 EXCEPTIONS = [
-    "X1 unprotected alert record that decodes (level fatal or close_notify): protocol-defined termination "
-    "(DTLS 1.2 alerts are unauthenticated until the epoch changes)",
+    "X1 unprotected alert record that decodes, level fatal or close_notify: protocol-defined termination "
+    "(DTLS 1.2 alerts are unauthenticated until the epoch changes); X1b a NON-fatal one is handed to Read as an "
+    "error once established (connection continues) and must be inert while the handshake is running",
     "X2 unprotected handshake fragments that decode: the handshake is unauthenticated until Finished, forged "
     "flight content may derail or abort a handshake in progress (never panic / never wedge an ESTABLISHED one)",
     "X3 unprotected application_data / change_cipher_spec / ACK / RRC records that decode: unexpected_message "
@@ -179,6 +180,8 @@ def obs_violation(o):
     e = o["eff"]
     if not e:
         return None
+    if cls == "warn" and o["est"] and set(e) <= {"read_err"}:
+        return None  # as coded (C08_warning_alert_after_establishment): handed to Read, the connection continues
     what = []
     if e.get("hs_err"):
         what.append("aborts the handshake in progress (%s)" % e["hs_err"].replace("handshake failed: ", ""))
@@ -196,6 +199,8 @@ def obs_violation(o):
 
 
 def drop_kind(cls):
+    if cls == "warn":
+        return "unprotected warning alert (not fatal, not close_notify)"
     if cls == "undec:ccs-epoch":
         return "change_cipher_spec-typed record claiming a protected epoch (taken as cleartext, never authenticated)"
     if cls.startswith("unsplit"):
@@ -208,6 +213,8 @@ def drop_kind(cls):
 
 
 def site_of(cls):
+    if cls == "warn":
+        return "conn.go classifyReadLoopError / deliverReadError (non-fatal alert)"
     if cls == "undec:ccs-epoch":
         return ("pkg/crypto/ciphersuite *.Decrypt (change_cipher_spec records returned unchanged) / conn.go "
                 "handleIncomingPacket (RecordLayer.Unmarshal error at epoch >= 1 -> fatal alert + error)")
@@ -221,7 +228,8 @@ def site_of(cls):
 def model_term(o):
     """(established, class, observed effect) for Rec.C08Run.c08_ok"""
     cls = o["class"]
-    k = {"empty": "KEmpty", "badhdr": "KBadHeader", "forged": "KForged", "clear": None, "auth": None}.get(cls, "?")
+    k = {"empty": "KEmpty", "badhdr": "KBadHeader", "forged": "KForged", "clear": None, "auth": None,
+         "warn": "KWarnAlert" if o.get("fresh") else "KUndecStale"}.get(cls, "?")
     if k is None or o.get("nrec", 0) > 1:
         return None  # only single-record datagrams (and datagrams that do not split) have a one-step prediction
     if cls.startswith("unsplit:"):
@@ -234,8 +242,8 @@ def model_term(o):
         k = "KUndecHs" if cls == "undec:hs" else ("KUndecContent" if o.get("fresh") else "KUndecStale")
     e = o["eff"]
     alert = e.get("alert", "")
-    return "(%s, %s, (%s, %s, %s, %s))" % (
-        cbool(o["est"]), k, cbool(bool(e.get("hs_err")) or bool(e.get("read_err"))),
+    return "(%s, %s, %s, (%s, %s, %s, %s))" % (
+        cbool(o.get("neg", False)), cbool(o["est"]), k, cbool(bool(e.get("hs_err")) or bool(e.get("read_err"))),
         cbool(alert != ""), cbool(bool(e.get("closed"))), cbool(bool(e.get("deliv"))))
 
 
@@ -311,7 +319,8 @@ def run(chk):
             v = obs_violation(o)
             if v is None:
                 continue
-            g = (drop_kind(o["class"]), "before establishment" if not o["est"] else "after establishment")
+            g = (drop_kind(o["class"]), "during dual-stack version negotiation" if (o.get("neg") and o["class"] == "warn")
+                 else ("before establishment" if not o["est"] else "after establishment"))
             cur = groups.setdefault(g, {"ex": None, "effects": set(), "n": 0, "classes": set()})
             cur["n"] += o["n"]
             cur["effects"].add(v)
@@ -340,23 +349,45 @@ def run(chk):
                                 "endpoint to keep serving"})
 
     # ---- M4b keeps serving after drop-only batches
-    late = []
+    # inert batches: every injected datagram had to be without effect when it arrived (drop classes; warning
+    # alerts while the target's handshake was running).  Afterwards the handshake completes, fresh payloads
+    # are delivered both ways, and the FIRST Read of each side returns the peer's payload, not an error.
+    late, firsts = [], []
     for c in cases:
-        if not c["drop_only"] or c["gen"].startswith("flood") or c["inj"] == 0:
+        if not c.get("inert") or c["gen"].startswith("flood") or c["inj"] == 0:
             continue
         if any(obs_violation(o) for o in c["obs"] or []):
             continue  # already reported through the datagram that did it
         if not (c["done"] and c["echo_cs"] and c["echo_sc"]):
             late.append(c)
+        elif c["first_c"] != "payload" or c["first_s"] != "payload":
+            firsts.append(c)
     if late:
-        c = sorted(late, key=lambda c: (c["gen"] != "corpus", c["inj"], c["id"]))[0]
+        c = sorted(late, key=lambda c: (c["gen"] not in ("corpus", "warn"), c["inj"], c["id"]))[0]
         found = True
         chk.finding("conn.go receive path", {"monitor": "no service after dropped datagrams"},
-                    "after datagrams that all had to be dropped (none had an immediate effect) the handshake did not "
-                    "complete / a fresh payload was not delivered [%d such cases; e.g. variant %s stage %d generator %s]" % (
-                        len(late), c["variant"], c["stage"], c["gen"]),
+                    "after datagrams that all had to be without effect (none had an immediate one) the handshake did not "
+                    "complete / a fresh payload was not delivered [%d such cases; e.g. variant %s stage %d generator %s, "
+                    "%d datagrams to the %s; client=%s server=%s]" % (
+                        len(late), c["variant"], c["stage"], c["gen"], c["inj"], c["target"], c["cerr"], c["serr"]),
                     {"how": "VERIF_C08_ONLY=%d VERIF_C08_TRACE=1" % c["id"], "case": c,
-                     "all": [(x["id"], x["variant"], x["stage"], x["gen"]) for x in late[:20]]})
+                     "datagrams": [o.get("hex") for o in c["obs"] or []],
+                     "all": [(x["id"], x["variant"], x["stage"], x["gen"], x["inj"]) for x in late[:20]]})
+    if firsts:
+        c = sorted(firsts, key=lambda c: (c["gen"] not in ("corpus", "warn"), c["inj"], c["id"]))[0]
+        found = True
+        chk.finding("conn.go classifyReadLoopError / deliverReadError",
+                    {"monitor": "first Read after inert datagrams is not the peer's payload"},
+                    "after datagrams that all had to be without effect the first Read returned %s (client) / %s (server) "
+                    "instead of the peer's payload [%d such cases; e.g. variant %s stage %d generator %s, %d datagrams to "
+                    "the %s]" % (c["first_c"], c["first_s"], len(firsts), c["variant"], c["stage"], c["gen"], c["inj"],
+                                 c["target"]),
+                    {"how": "start `variant`; before handshake datagram #stage is delivered, deliver `datagrams` to `target`; "
+                            "complete the handshake; the peer writes a payload; the first Read on `target` must return it. "
+                            "VERIF_C08_ONLY=%d VERIF_C08_TRACE=1" % c["id"],
+                     "variant": c["variant"], "stage": c["stage"], "target": c["target"],
+                     "datagrams": [o.get("hex") for o in c["obs"] or []], "case": c,
+                     "all": [(x["id"], x["variant"], x["stage"], x["gen"], x["inj"]) for x in firsts[:20]]})
 
     # ---- M3 bounds
     for c in cases:
